@@ -115,6 +115,12 @@ theorem glomit_sim (p : Prims) {recO : Rec Obs} {rec : Rec σ} (h : Sim recO rec
     · split <;> simp only [mapSc_fail, mapSc_bind_left, mapSc_pure, argVal_sim h]
   | probe id => simp only [glomit, mapSc_bind_left, mapSc_pure, obsOf_mode]
   | iter s vm => simp only [glomit, mapSc_bind_left, mapSc_pure, listLoop_sim h, zipLoop_sim h]
+  | inspect s bp pm =>
+    simp only [glomit, mapSc_bind_left, h, attempt_mapSc_bind]
+    congr 1; funext _; congr 1; funext r
+    cases r with
+    | ok x => simp only [mapSc_pure]
+    | error e => simp only [mapSc_bind_left, mapSc_throw]
 
 theorem modeFns_sim (p : Prims) {recO : Rec Obs} {rec : Rec σ} (h : Sim recO rec) (spec : Spec) (t : V) (own : σ) :
     argModeFn p recO spec t (obsOf own) = argModeFn p rec spec t own ∧
